@@ -213,6 +213,8 @@ type Resp struct {
 	SeqWH    int // event seq at first WriteHeader
 	SeqRet   int
 	BodyRead int64 // bytes the server pulled from the request body
+	BodySize int64 // bytes the client was going to send
+	NoCL     bool  // no Content-Length announced
 	conn     net.Conn
 	h3       any
 	cancel   context.CancelFunc
@@ -334,6 +336,7 @@ func (w *World) newRequest(client string, rs ReqSpec) (*http.Request, *Resp) {
 	} else if rs.Body != nil {
 		body = bytes.NewReader(rs.Body)
 	}
+	r.BodySize, r.NoCL = n, rs.NoCL
 	if body != nil {
 		req.Body = &countingBody{r: body, n: &r.BodyRead, chunk: rs.Chunk}
 		req.ContentLength = n
